@@ -229,11 +229,18 @@ def cause_event(cause: str, trigger: dict, phase: str, rng: random.Random | None
         return [{"at": t, "do": "fault", "kind": cause, "latency": 0.0, "cause": cause}]
     if cause == "garbage":
         raw = "ff" * 6 if not noise else "0300aa"
+        if not noise and rng is not None and rng.random() < 0.4:
+            # a wrong marker byte in front of what would otherwise be a complete frame (a ping / a state message): the
+            # connection ends at the marker, whatever follows it in the chunk is not a message any more
+            raw = pick(rng, ["05", "7f", "03"]) + pick(rng, ["0007", "0009", "021a0801", "0532" + "0d0000803f1001"[:10]])
         return [{"at": t, "do": "dev", "act": {"raw_hex": raw, "latency": 0.0}, "cause": cause}]
     if cause == "requires_encryption":
         raw = "010000" if not noise else "00000a"
         return [{"at": t, "do": "dev", "act": {"raw_hex": raw, "latency": 0.0}, "cause": cause}]
     if cause == "dev_disconnect":
+        if rng is not None and rng.random() < 0.25:
+            # the request of a newer firmware: it carries a field this client does not know (protobuf keeps unknown fields)
+            return [{"at": t, "do": "dev", "act": {"msgs": [{"type": 5, "payload_hex": pick(rng, ["0801", "120161"])}], "latency": 0.0}, "cause": cause}]
         return [{"at": t, "do": "dev", "act": {"msgs": [["DisconnectRequest", {}]], "latency": 0.0}, "cause": cause}]
     if cause == "dev_disconnect_trailing":
         tr = TRAILERS[rng.randrange(1, len(TRAILERS))] if rng else TRAILERS[1]
